@@ -97,7 +97,7 @@ def rule_write(facts, tname, field):
     r = report.RuleResult("C16.R1", "after any failing write the latch is empty; it is refilled only on success")
     r2 = report.RuleResult("C16.R2", "with the latch empty nothing touches the sink or the decoder")
     ws = [b for b in facts.bodies if b.trait == "std::io::Write" and b.item == "write" and b.self_ty is not None
-          and b.self_ty.name == tname]
+          and b.self_ty.name == tname and b.promoted is None]
     r.need("streaming write implementation", len(ws) == 1)
     if not ws:
         return r, r2
@@ -166,7 +166,7 @@ def rule_write(facts, tname, field):
 
 def rule_finish_flush(facts, tname, field, r2):
     fins = [b for b in facts.bodies if b.self_ty is not None and b.self_ty.name == tname and b.item == "finish"
-            and b.trait is None]
+            and b.trait is None and b.promoted is None]
     r2.need("finish of the streaming type", len(fins) == 1)
     for b in fins:
         fn = short(b.name)
